@@ -8,6 +8,15 @@ COMMON_TRUST = [
 ]
 
 PROPS = {
+    'C04': dict(
+        units=['status'], level='proof',
+        not_covered=[
+            'percent-encoding and base64 crates implement their RFCs and are mutually inverse (axioms A-pct-01, A-b64-01); tonic/src/util.rs engine configuration is represented by the Engine shim',
+            'that ENCODING_SET escapes every byte http::HeaderValue rejects is the Kani harness kx::encoding_set (not yet wired in this build)',
+            'metadata that itself uses one of the three status header names (grpc-status-details-bin is not reserved) is outside lemma_status_roundtrip',
+            'h2 reasons FRAME_SIZE_ERROR, STREAM_CLOSED, HTTP_1_1_REQUIRED and unknown ones are left unconstrained (the property names no code for them)',
+            'from_error / from_hyper_error / find_status_in_source_chain (dyn Error source chains) are not under contract',
+        ]),
     'C01': dict(
         units=['wire', 'encode', 'decode'], level='proof',
         not_covered=[
